@@ -17,6 +17,7 @@ class Spec:
         # follow_calls: reach() also lists the nodes of crate-local callees at the position of the call (parameters bound to
         # the constant arguments), so that order and presence questions do not depend on helper extraction
         self.follow_calls = follow_calls
+        self.foreign = set()   # ids of nodes that reach() listed from followed callees
         # assume(node) -> constant | None : lets a rule fix the value of an expression that is not a variable
         # (e.g. "the scrutinee `edge.weight()` is an Edge::Jump")
         self.assume = assume
@@ -112,7 +113,7 @@ class Spec:
                     if c is not None and p_.get("p"):
                         self.bind(p_["p"], c, env2)
                         known = True
-                if known:
+                if known or self.assume is not None:
                     return self.cev(g["body"], env2, depth + 1)
             return None
         return None
@@ -245,7 +246,14 @@ class Spec:
                 d = self._reach(n["i"], env, out, depth)
                 self.bind(n["p"], self.cev(n["i"], env, depth), env)
             if "els" in n:
-                self._reach(n["els"], dict(env), out, depth)
+                # let-else: the else block runs (and diverges) exactly when the pattern does not match
+                c = self.cev(n["i"], env, depth) if "i" in n else None
+                r = self.pat_matches(n["p"], c) if c is not None else None
+                if r is True:
+                    return d
+                de = self._reach(n["els"], dict(env), out, depth)
+                if r is False:
+                    return True
             return d
         if k == "Loop":
             self._reach(n["b"], dict(env), out, depth)
@@ -266,7 +274,10 @@ class Spec:
                     c = self.cev(a_, env, depth)
                     if c is not None and p_.get("p"):
                         self.bind(p_["p"], c, env2)
+                before = len(out)
                 self._reach(g["body"], env2, out, depth + 1)
+                for x in out[before:]:
+                    self.foreign.add(id(x))
         return d if k in T.WRAPPERS or k in ("Use", "NeverToAny", "Scope") else False
 
     # ---- results
@@ -274,7 +285,7 @@ class Spec:
         """(result expressions, reachable nodes) of a function body under env: the operands of reachable `return e` and the
         reachable tail expressions (leaves of if / match / block in tail position)."""
         nodes = self.reach(body, env)
-        rets = [n["e"] for n in nodes if n.get("k") == "Return" and n.get("e") is not None]
+        rets = [n["e"] for n in nodes if n.get("k") == "Return" and n.get("e") is not None and id(n) not in self.foreign]
         leaves = []
         self._leaves(body, dict(env), leaves)
         return rets + leaves, nodes
@@ -316,6 +327,16 @@ class Spec:
         if k in ("Return", "Break", "Continue"):
             return
         out.append(n0)
+
+
+def result_kind(n):
+    """'Ok' | 'Err' | None for a Result-valued result expression (`?` residuals count as Err)"""
+    n = T.peel(n)
+    if n.get("k") == "Adt" and n.get("v") in ("Ok", "Err"):
+        return n["v"]
+    if n.get("k") == "Call" and n.get("n") == "from_residual":
+        return "Err"
+    return None
 
 
 def option_kind(n):
